@@ -75,19 +75,26 @@ class AcmHandlerHarness(Harness):
 
 
 class SerialHarness(Harness):
-    def __init__(self, nslots):
+    def __init__(self, nslots, tog0=False):
         super().__init__()
         from luna.gateware.interface.utmi import UTMIInterface
         from luna.gateware.usb.devices.acm import USBSerialDevice
         self.nslots = nslots
+        self.tog0 = tog0
         self.utmi = UTMIInterface()
         self.dut = USBSerialDevice(bus=self.utmi, idVendor=VID, idProduct=PID, max_packet_size=8)
         self.host = SlottedHost(self, nslots, slot_len=SLOT, ack_t=ACK_T, max_out=7, prefix="s", ep_bits=3)
         self.base = self.inp("tx_base", 8, const=True)
         self.k = self.inp("k", 4, const=True)
         self.rx_ready = self.inp("rx_ready", 1)
+        if tog0:
+            # symbolic pre-state of one register: the OUT endpoint's expected data toggle (and the monitor's copy) start at
+            # t0 -- the state after an odd / even number of accepted OUT packets, without spending a slot on it
+            self.t0 = self.inp("t0", 1, const=True)
+            self.sym_reg("expected_data_toggle", "t0")
+            self.sym_reg("g_out_toggle", "t0")
         names = ["device_descriptor", "line_coding_data_ack", "line_coding_status", "other_requests_stalled",
-                 "rx_order", "rx_count", "tx_order", "out_handshake"]
+                 "rx_order", "rx_count", "rx_lost", "tx_order", "out_handshake"]
         self.v = {n: self.viol(n) for n in names}
         self.c = {n: self.cover(n) for n in ["descriptor", "line_coding_done", "stalled_class", "stalled_vendor",
                                              "rx_byte", "tx_packet", "tx_second_packet", "rx_tracked"]}
@@ -160,11 +167,19 @@ class SerialHarness(Harness):
         rx = dut.rx
         m.d.comb += rx.ready.eq(self.rx_ready)
         out4 = (h.cur_kind == KIND_OUT) & to_us & (ep == 4) & ~h.cur_flag
-        g_tog = Signal()                 # data toggle the endpoint expects
+        g_tog = Signal(name="g_out_toggle")   # data toggle the endpoint expects
         acc = Signal(6)                  # payload bytes of accepted packets so far
         trk, got_rx = Signal(8), Signal(8)
         delivered = Signal(6)
         accepts = out4 & (h.cur_dpid == g_tog) & sent_ack
+        # ClearFeature(ENDPOINT_HALT) resets the addressed endpoint's data toggle [USB 2.0 9.4.5]; the device applies it when
+        # the host ACKs the status-stage ZLP.  wIndex 0x04 = OUT endpoint 4, 0x84 = IN endpoint 4.
+        is_clear_halt = (rt == 0x02) & (req == 1) & (wv == 0) & (wl == 0)
+        clear_done = judge & in0 & prev_valid_setup & is_clear_halt & (spy.pid == 0x4B) & (spy.count == 3) & h.cur_flag
+        clear_out4 = clear_done & (g[32:48] == 0x0004)
+        clear_in4 = clear_done & (g[32:48] == 0x0084)
+        with m.If(clear_out4):
+            m.d.usb += g_tog.eq(0)
         with m.If(judge & accepts):
             m.d.usb += [acc.eq(acc + h.cur_olen), g_tog.eq(~g_tog)]
             for j in range(8):
@@ -176,6 +191,15 @@ class SerialHarness(Harness):
                 m.d.usb += got_rx.eq(rx.payload)
         acc_now = Signal(6)              # bytes accepted including the packet being received in this slot
         m.d.comb += acc_now.eq(acc + Mux(out4 & (h.cur_dpid == g_tog), h.cur_olen, 0))
+        # completeness: with a consumer that was ready throughout, every byte of every ACKed in-sequence packet has been
+        # delivered a few cycles after the last transaction
+        always_ready = Signal(init=1)
+        with m.If(~self.rx_ready):
+            m.d.usb += always_ready.eq(0)
+        done_age = Signal(4)
+        with m.If(h.done & (done_age != 15)):
+            m.d.usb += done_age.eq(done_age + 1)
+        m.d.comb += self.v["rx_lost"].eq((done_age == 8) & always_ready & (delivered != acc))
         m.d.comb += [
             self.v["rx_count"].eq(delivered > acc_now),
             self.v["rx_order"].eq(h.done & (delivered > self.k) & (acc > self.k) & (got_rx != trk)),
@@ -200,6 +224,8 @@ class SerialHarness(Harness):
         m.d.comb += self.v["tx_order"].eq(judge & in4 & spy.is_data & (~pid_matches | bad | (plen > 8)))
         with m.If(judge & in4 & spy.is_data & pid_matches & h.cur_flag):
             m.d.usb += [h_tog.eq(~h_tog), h_cnt.eq(h_cnt + plen)]
+        with m.If(clear_in4):
+            m.d.usb += h_tog.eq(0)
         # ---- covers
         m.d.comb += [
             self.c["descriptor"].eq(judge & in0 & prev_valid_setup & is_get_dev & (spy.count == 21)),
@@ -305,7 +331,7 @@ def queries(tier):
                 layer[f"s{i_}_{k_}"] = v_
         return "".join(names), len(names), layer
     CTRL = ["device_descriptor", "other_requests_stalled", "line_coding_data_ack", "line_coding_status"]
-    RXA = ["rx_order", "rx_count", "out_handshake"]
+    RXA = ["rx_order", "rx_count", "rx_lost", "out_handshake"]
     TXA = ["tx_order"]
     plan = [  # (cube, assertions)
         (cube("S", "Z"), CTRL), (cube("S", "z"), CTRL), (cube("s", "Z"), CTRL),
@@ -314,7 +340,21 @@ def queries(tier):
         (cube("q2", "Q2"), RXA), (cube("Q0", "P7"), RXA), (cube("X1", "X2"), RXA),
         (cube("I", "I"), TXA), (cube("i", "I"), TXA), (cube("I", "i"), TXA), (cube("J", "J"), TXA),
         (cube("Q1", "I"), RXA + TXA), (cube("I", "Q1"), RXA + TXA),
+        # a control transfer completes between two packets of the data endpoints (e.g. ClearFeature(ENDPOINT_HALT) for the IN
+        # or the OUT side): only the addressed direction's toggle may change
     ]
+    # ClearFeature(ENDPOINT_HALT) for the IN side (wIndex 0x84) / the OUT side (0x04) of endpoint 4 between OUT packets, from
+    # a symbolic OUT-toggle pre-state so that three slots suffice (four 40-cycle slots of this device exceed 9 GB; with
+    # the SETUP payload symbolic as well, so do three): only the addressed direction's toggle may change
+    O["C"] = dict(opt(KIND_SETUP, 0, 0), data=0x0000008400000102)      # 02 01 00 00 84 00 00 00
+    O["D"] = dict(opt(KIND_SETUP, 0, 0), data=0x0000000400000102)      # 02 01 00 00 04 00 00 00
+    for cb in (cube("C", "Z", "P1"), cube("C", "Z", "Q1"), cube("D", "Z", "Q1"), cube("D", "Z", "P1")):
+        name, ns, layer = cb
+        qs.append(Query(f"bmc_tog_{name}", (lambda ns=ns: SerialHarness(ns, tog0=True)), SLOT * ns + 12, layer=layer,
+                        asserts=RXA, covers=[], timeout=900, split=False, tactic="portfolio",
+                        desc=f"transactions {name} from an arbitrary expected OUT toggle (C/D = ClearFeature(ENDPOINT_HALT) "
+                             "for the IN / OUT side of endpoint 4)"))
+    qs.append(Query("cosim_tog", lambda: SerialHarness(2, tog0=True), 0, kind="cosim", cosim_cycles=100))
     if not quick:
         plan += [
             (cube("S", "L", "z"), CTRL), (cube("S", "Z", "Z"), CTRL), (cube("S", "Z", "E"), CTRL), (cube("S", "I", "Z"), CTRL),
